@@ -231,6 +231,15 @@ BlkJobFails(C, j, J, O) ==
            IF hit = {} THEN Fail(FALSE, "MACHINERY:RouteNotExecuted", j, J.routes[q])
            ELSE Fail(\A k \in hit : O.blk[k].within, "BlockedIsScalar", j, J.routes[q]) : q \in 1..Len(J.routes)} }
 
+\* gradient / divergence special assemblers: blocks are the scalar testderiv matrices, D is the adjoint of B
+GdJobFails(C, j, J, O) ==
+  UNION {
+    Fail(J \in GDJobs(C.shape, C.dim, C.class, C.test, C.trial) \/ \E sl \in 1..3 : J = GDJob(C.shape, C.dim, C.class, C.test, C.trial, sl),
+         "MACHINERY:JobNotInCatalogue", j, ""),
+    Fail(Len(O.sc) = Len(J.scales), "MACHINERY:ScalesNotExecuted", j, ""),
+    UNION {Fail(O.sc[k].b, "GradPresIsTestDeriv", j, "gpdv") \cup Fail(O.sc[k].adj, "GradDivAdjoint", j, "gpdv")
+           \cup Fail(O.sc[k].g, "GradOperatorIsAdjoint", j, "gradop") : k \in 1..Len(O.sc)} }
+
 Verdict(C) ==
   IF ~ClassOK(C) THEN Fail(FALSE, "MACHINERY:MeshClass", -1, C.class)
   ELSE
@@ -242,10 +251,11 @@ Verdict(C) ==
     IN law \cup PatternFails(C)
        \cup UNION {CASE C.jobs[j].spec.k = "mat" -> MatJobFails(C, j, mom, C.jobs[j].spec, C.jobs[j].obs)
                      [] C.jobs[j].spec.k = "vec" -> VecJobFails(C, j, mom, C.jobs[j].spec, C.jobs[j].obs)
-                     [] C.jobs[j].spec.k = "blk" -> BlkJobFails(C, j, C.jobs[j].spec, C.jobs[j].obs) : j \in 1..Len(C.jobs)}
+                     [] C.jobs[j].spec.k = "blk" -> BlkJobFails(C, j, C.jobs[j].spec, C.jobs[j].obs)
+                     [] C.jobs[j].spec.k = "gd" -> GdJobFails(C, j, C.jobs[j].spec, C.jobs[j].obs) : j \in 1..Len(C.jobs)}
 
-NIds(C) == SumA([j \in 1..Len(C.jobs) |-> IF C.jobs[j].spec.k = "blk" THEN 0 ELSE Len(C.jobs[j].obs.ids)])
-NUndec(C) == SumA([j \in 1..Len(C.jobs) |-> IF C.jobs[j].spec.k = "blk" THEN 0
+NIds(C) == SumA([j \in 1..Len(C.jobs) |-> IF C.jobs[j].spec.k \in {"blk", "gd"} THEN 0 ELSE Len(C.jobs[j].obs.ids)])
+NUndec(C) == SumA([j \in 1..Len(C.jobs) |-> IF C.jobs[j].spec.k \in {"blk", "gd"} THEN 0
                     ELSE Cardinality({k \in 1..Len(C.jobs[j].obs.ids) : ~C.jobs[j].obs.ids[k].dec})])
 
 CEmit == LET C == Cases[ci] IN
